@@ -302,16 +302,19 @@ def check_fin(ctx):
             "_get_description_bits no longer extracts byte_2 & 0x1F")
   # channel bit in __init__
   init = pac.methods["__init__"]
-  ch_expr = None
-  for st in own_nodes(init.node):
-    if isinstance(st, ast.Assign) and unparse(st.targets[0]) == "self._channel":
-      ch_expr = st.value
-  if ch_expr is None:
-    raise AnalysisError("SccPreambleAddressCode.__init__: self._channel assignment not found")
-  ce = ConstEval(ix)
+  from ..consteval import _CallingConstEval as _CCE, Raised as _Raised
+  ch_stmts = [st for st in init.node.body if any(isinstance(x, ast.Assign) and unparse(x.targets[0]) == "self._channel" for x in ast.walk(st))]
+  if len(ch_stmts) != 1:
+    raise AnalysisError(f"SccPreambleAddressCode.__init__: expected one statement assigning self._channel, found {len(ch_stmts)}")
+  fe = FuncEval(ix)
   wrong = []
   for b1 in range(0x10, 0x20):
-    v = ce.ev(pac.module, ch_expr, pac, {init.params[1]: b1})
+    env = {init.params[1]: b1}
+    try:
+      fe._block(_CCE(ix, fe, init, 0, None), init, ch_stmts, env)
+    except (NotConst, _Raised) as e:
+      raise AnalysisError(f"SccPreambleAddressCode.__init__: the channel assignment leaves the evaluable subset ({e})")
+    v = env.get("self._channel")
     evals += 1
     want = "CHANNEL_2" if b1 & 0x08 else "CHANNEL_1"
     if not (isinstance(v, EnumMember) and v.name == want):
